@@ -255,7 +255,29 @@ def request_bytes(w, case, cc):
     return (req + '\r\n').encode('latin1')
 
 
+_DATE_RE = re.compile(r'[A-Z][a-z]{2}, \d{2} [A-Z][a-z]{2} \d{4} \d{2}:\d{2}:\d{2} GMT')
+
+
+def _relative_dates(text, t0_s):
+    """Transcripts are compared between runs that may execute a case at different virtual times (a restart
+    after a reported violation shifts the clock): express every HTTP-date relative to the start of the case."""
+    import calendar
+
+    def sub(m):
+        try:
+            t = calendar.timegm(time.strptime(m.group(0), '%a, %d %b %Y %H:%M:%S GMT'))
+        except ValueError:
+            return m.group(0)
+        return '<T%+ds>' % (t - t0_s)
+    return _DATE_RE.sub(sub, text)
+
+
 def run_case(w, case):
+    r = _run_case(w, case, w.sq.now_us // 1_000_000)
+    return r
+
+
+def _run_case(w, case, t0_s):
     origin = Origin(w, case)
     tr = []
     violation = None
@@ -263,7 +285,7 @@ def run_case(w, case):
     tr.append('O1:%s\nC1:%s' % (ex1.origin_raw.decode('latin1'), ex1.client_bytes.decode('latin1')))
     r1 = ex1.response
     if not (r1 and r1.complete and not r1.error and r1.status == 200 and len(origin.arrivals) == 1):
-        return {'outcome': 'first-request-not-served', 'violation': None, 'transcript': '\n'.join(tr)}
+        return {'outcome': 'first-request-not-served', 'violation': None, 'transcript': _relative_dates('\n'.join(tr), t0_s)}
     steps = [(case['adv'], case['cc2'])]
     if case['hist']:
         steps.append((case['hist']['g2'], case['hist']['cc3']))
@@ -299,7 +321,7 @@ def run_case(w, case):
                                  '; '.join(resp_headers(case, origin.last_response_s * 1_000_000, 0)[:-2])))
         else:
             outcomes.append('free:' + ('contacted' if contacted else 'served-from-cache'))
-    return {'outcome': '|'.join(outcomes), 'violation': violation, 'transcript': '\n'.join(tr)}
+    return {'outcome': '|'.join(outcomes), 'violation': violation, 'transcript': _relative_dates('\n'.join(tr), t0_s)}
 
 
 def key_of(case):
